@@ -24,7 +24,7 @@ Shapes == { <<"file", "s/f1">>, <<"config", "s/f2.conf">>, <<"config|noreplace",
 Options == { [type |-> sh[1], src |-> sh[2], dst |-> d, tag |-> t, fi |-> NoFi] : sh \in Shapes, d \in Dsts, t \in Tags }
 Lists == UNION { [1..n -> Options] : n \in 0..MaxLen }
 
-Cfg(l, chg) == [name |-> "p", has_changelog |-> chg, entries |-> l, umask |-> 18, noglob |-> FALSE, pmt |-> 1600000000]
+Cfg(l, chg) == [name |-> "p", has_changelog |-> chg, entries |-> l, umask |-> 18, noglob |-> FALSE, pmt |-> 1600000000, pmtset |-> TRUE]
 
 Init == es \in Lists
 Next == UNCHANGED es
